@@ -356,6 +356,17 @@ def _admission(ctx, repo):
                msg=f"variables are admitted with isinstance({bad}): subclasses such as numpy.float64 (a float) or bool (an int) are compiled to Python operators although their arithmetic differs from the interpreter's (np.float64 % 0 is inf without raising, so no fallback to :undefined)")
 
 
+# functions whose mechanical mutants are swept in the thorough tier (coverage evidence, see sa/mutate.py)
+MUTATION_SCOPE = ['compiler:_ast_to_ir',
+                  'compiler:compile_expr',
+                  'backends/numpy_backend:NumpyBackendProvider._ir_to_source',
+                  'backends/numpy_backend:NumpyBackendProvider.compile_expr_ir',
+                  'backends/base:BackendProvider._collect_params',
+                  'interpreter:KlongInterpreter.__call__',
+                  'interpreter:KlongInterpreter.call',
+                  'interpreter:KlongInterpreter.__setitem__',
+                  'interpreter:KlongInterpreter.__delitem__']
+
 SEEDS = [
     Seed("setitem-keeps-compiled", "fault", "interpreter", "        # results since Python operators have different semantics per type.\n        self._compiled_cache.clear()", "        # results since Python operators have different semantics per type.\n        pass", rule="C05-R1"),
     Seed("define-bypasses-setitem", "fault", "dyads", "    klong[n] = v\n    return v", "    klong._context[n] = v\n    return v", rule="C05-R1"),
